@@ -322,37 +322,7 @@ func checkC08(c *Ctx) {
 			})
 		}
 	}
-	// constants and initialisation
-	for _, kv := range [][3]string{{"defaultUnusedTimeout", "600000000000", "timeoutUnused"}, {"defaultActiveTimeout", "21600000000000", "timeoutActive"}} {
-		val, ok := globalInitConst(c.P, repoMod+"/pkg/station/lib", kv[0])
-		r.Check(ok && val == kv[1], "C08.3", kv[0]+" == "+kv[1]+"ns", token.NoPos, "", "package initialiser value "+val,
-			"the lifetime constant "+kv[0]+" is "+val+" ns, the property states "+kv[1]+" ns (10 min unused / 6 h active)")
-		// writers of the field
-		nInit := 0
-		for _, f := range c.P.RepoFuncs() {
-			for _, st := range fieldStores(f, owner, kv[2]) {
-				src := pathOf(st.Val)
-				if src == "lib."+kv[0] && strings.HasSuffix(fnName(f), "NewRegisteredDecoys") {
-					nInit++
-					r.OK("C08.3", "NewRegisteredDecoys: "+kv[2]+" <- "+kv[0], st.Pos(), "constructor initialisation")
-				} else {
-					r.Bad("C08.3", fnName(f)+": "+kv[2]+" <- "+firstN(src, 60), st.Pos(), fnName(f),
-						"the expiry timeout is set from something other than "+kv[0]+": the station expires on a different schedule than it announces to the detector")
-				}
-			}
-			// writers of the package variable itself
-			eachInstr(f, func(in ssa.Instruction) {
-				if st, ok := in.(*ssa.Store); ok {
-					if g, ok := st.Addr.(*ssa.Global); ok && g.Name() == kv[0] && f.Name() != "init" {
-						r.Bad("C08.3", fnName(f)+": writes "+kv[0], st.Pos(), fnName(f), "the lifetime variable is modified at run time")
-					}
-				}
-			})
-		}
-		if nInit == 0 {
-			r.Unk("C08.3", "NewRegisteredDecoys initialises "+kv[2], token.NoPos, "", "no store "+kv[2]+" <- "+kv[0]+" found in the constructor")
-		}
-	}
+	checkTimeoutWriters(c, "C08.3", owner)
 
 	// ---- C08.4 activation
 	r.Rule("C08.4", "markActive flips the record found under the C08.1 key to used; the connection handler calls MarkActive on match", 2)
@@ -507,4 +477,47 @@ func balancedCall(x string) bool {
 		}
 	}
 	return depth == 0
+}
+
+// checkTimeoutWriters: the lifetime constants are 10 min / 6 h, the expiry fields are initialised from them in the
+// constructor and nothing else can write them (no other store, no escaping address, no run-time write of the variables).
+// Shared by C08.3 (expiry schedule) and C10.2 (the detector is asked for the lifetime the station enforces).
+func checkTimeoutWriters(c *Ctx, rule, owner string) {
+	r := c.R
+	// constants and initialisation
+	for _, kv := range [][3]string{{"defaultUnusedTimeout", "600000000000", "timeoutUnused"}, {"defaultActiveTimeout", "21600000000000", "timeoutActive"}} {
+		val, ok := globalInitConst(c.P, repoMod+"/pkg/station/lib", kv[0])
+		r.Check(ok && val == kv[1], rule, kv[0]+" == "+kv[1]+"ns", token.NoPos, "", "package initialiser value "+val,
+			"the lifetime constant "+kv[0]+" is "+val+" ns, the property states "+kv[1]+" ns (10 min unused / 6 h active)")
+		// writers of the field
+		nInit := 0
+		for _, f := range c.P.RepoFuncs() {
+			for _, st := range fieldStores(f, owner, kv[2]) {
+				src := pathOf(st.Val)
+				if src == "lib."+kv[0] && strings.HasSuffix(fnName(f), "NewRegisteredDecoys") {
+					nInit++
+					r.OK(rule, "NewRegisteredDecoys: "+kv[2]+" <- "+kv[0], st.Pos(), "constructor initialisation")
+				} else {
+					r.Bad(rule, fnName(f)+": "+kv[2]+" <- "+firstN(src, 60), st.Pos(), fnName(f),
+						"the expiry timeout is set from something other than "+kv[0]+": the station expires on a different schedule than it announces to the detector")
+				}
+			}
+			for _, esc := range fieldAddrEscapes(f, owner, kv[2]) {
+				r.Bad(rule, fnName(f)+": address of "+kv[2]+" escapes", esc.Pos(), fnName(f),
+					"the address of the expiry timeout is taken and passed on ("+firstN(esc.String(), 60)+"): it can be written through that pointer, so the station may expire on a different schedule than "+kv[0]+", which is what it announces to the detector")
+			}
+			// writers of the package variable itself
+			eachInstr(f, func(in ssa.Instruction) {
+				if st, ok := in.(*ssa.Store); ok {
+					if g, ok := st.Addr.(*ssa.Global); ok && g.Name() == kv[0] && f.Name() != "init" {
+						r.Bad(rule, fnName(f)+": writes "+kv[0], st.Pos(), fnName(f), "the lifetime variable is modified at run time")
+					}
+				}
+			})
+		}
+		if nInit == 0 {
+			r.Unk(rule, "NewRegisteredDecoys initialises "+kv[2], token.NoPos, "", "no store "+kv[2]+" <- "+kv[0]+" found in the constructor")
+		}
+	}
+
 }
